@@ -758,6 +758,17 @@ def run_c16(args):
     exe, px = vf.build_driver("drv_dispatch", "plain", cflags=["-pthread"])
     chk.extra["build"] = px["hash"]
     reqs = gen_requests(rng, 600 if quick else 12000, threads=True)
+    # every routine of the fast-path tables from several threads at once: the per-table-entry requests of C02 (kept in
+    # their order: the variants of one entry are consecutive, and consecutive requests go to different threads), so that
+    # state a routine keeps outside its arguments (a static or per-implementation scratch record, a lazily built
+    # table) is written by two threads - ThreadSanitizer reports it, and the results differ from the solo run
+    directed, special, _nr = table_directed_requests(random.Random(args.seed * 31 + 5), exe, wd, [""], quick)
+    allreq = directed + special
+    blk = 6
+    pick = (args.seed % 4) if quick else None
+    routed = [r for i, r in enumerate(allreq) if pick is None or (i // blk) % 4 == pick]
+    chk.extra["table_directed_requests_in_threads"] = len(routed)
+    reqs = reqs + routed
     script = os.path.join(wd, "reqs.script")
     open(script, "w").write("\n".join(reqs) + "\n")
     chk.sample({"request_script_lines": reqs[:3]})
